@@ -3,9 +3,9 @@
 package plugin
 
 import (
+	"errors"
 	"fmt"
 	"net"
-	"errors"
 	"net/netip"
 	"testing"
 	"time"
@@ -174,7 +174,7 @@ func wildPre(k int, cands []netip.Prefix) []ndp.Option {
 			bits -= 16 // an aggregate with the same base address
 		}
 		base := netip.PrefixFrom(c.Addr(), c.Bits()).Masked().Addr()
-		switch (k / 5 + i) % 3 {
+		switch (k/5 + i) % 3 {
 		case 0:
 			pre = append(pre, &ndp.PrefixInformation{PrefixLength: uint8(bits), OnLink: true, ValidLifetime: time.Hour, PreferredLifetime: time.Hour, Prefix: base})
 		case 1:
@@ -281,44 +281,46 @@ func c13Run(t *testing.T, out *vfh.Out, bits int, k int, as []system.IP) {
 	}
 	pre := wildPre(k, cands)
 	ra := &ndp.RouterAdvertisement{Options: append([]ndp.Option(nil), pre...)}
-	impl := new(vfh.Toks)
-	if err := p.Apply(ra); err != nil {
-		impl.S("err")
-	} else {
-		own := wildOwn(t, ra, pre)
-		impl.N(len(own))
-		// a deprecated stanza: whichever single reading j of this Apply decided the lifetimes of
-		// ALL its options is reported as the first one (reading the clock once, early or late, is
-		// the stanza's business; a reading per option is not)
-		norm := -1
-		if dep && len(own) > 0 {
-			for j := 0; j < wildClock.reads && norm < 0; j++ {
-				all := true
-				for _, o := range own {
-					pi, ok := o.(*ndp.PrefixInformation)
-					if !ok || pi.ValidLifetime != remainingAt(cfgValid, j) || pi.PreferredLifetime != remainingAt(cfgPref, j) {
-						all = false
+	out.Try(c.String(), func() string {
+		impl := new(vfh.Toks)
+		if err := p.Apply(ra); err != nil {
+			impl.S("err")
+		} else {
+			own := wildOwn(t, ra, pre)
+			impl.N(len(own))
+			// a deprecated stanza: whichever single reading j of this Apply decided the lifetimes of
+			// ALL its options is reported as the first one (reading the clock once, early or late, is
+			// the stanza's business; a reading per option is not)
+			norm := -1
+			if dep && len(own) > 0 {
+				for j := 0; j < wildClock.reads && norm < 0; j++ {
+					all := true
+					for _, o := range own {
+						pi, ok := o.(*ndp.PrefixInformation)
+						if !ok || pi.ValidLifetime != remainingAt(cfgValid, j) || pi.PreferredLifetime != remainingAt(cfgPref, j) {
+							all = false
+						}
+					}
+					if all {
+						norm = j
 					}
 				}
-				if all {
-					norm = j
+			}
+			for _, o := range own {
+				pi, ok := o.(*ndp.PrefixInformation)
+				if !ok {
+					t.Fatalf("unexpected option %T", o)
 				}
+				impl.Prefix(netip.PrefixFrom(pi.Prefix, int(pi.PrefixLength)))
+				v, pf := pi.ValidLifetime, pi.PreferredLifetime
+				if norm >= 0 {
+					v, pf = valid, pref
+				}
+				impl.B(pi.OnLink).B(pi.AutonomousAddressConfiguration).I(int64(v)).I(int64(pf))
 			}
 		}
-		for _, o := range own {
-			pi, ok := o.(*ndp.PrefixInformation)
-			if !ok {
-				t.Fatalf("unexpected option %T", o)
-			}
-			impl.Prefix(netip.PrefixFrom(pi.Prefix, int(pi.PrefixLength)))
-			v, pf := pi.ValidLifetime, pi.PreferredLifetime
-			if norm >= 0 {
-				v, pf = valid, pref
-			}
-			impl.B(pi.OnLink).B(pi.AutonomousAddressConfiguration).I(int64(v)).I(int64(pf))
-		}
-	}
-	out.Line(c.String(), impl.String())
+		return impl.String()
+	})
 }
 
 func verifC13(t *testing.T, r *vfh.Rand, out *vfh.Out) {
@@ -379,26 +381,26 @@ func verifC13(t *testing.T, r *vfh.Rand, out *vfh.Out) {
 func c14Pool() []system.IP {
 	none := flags{}
 	return []system.IP{
-		mkIP("fd00::5/64", none),                                // ULA
-		mkIP("fd00::3/64", none),                                // ULA, lower
-		mkIP("fd00::9/64", flags{forever: true}),                // ULA stable
-		mkIP("fd00::211:22ff:fe33:4455/64", none),               // ULA EUI-64 (stable by pattern)
-		mkIP("fd00::1/64", flags{dep: true}),                    // ULA deprecated (excluded)
-		mkIP("2001:db8::5/64", none),                            // GUA
-		mkIP("2001:db8::2/64", flags{stab: true}),               // GUA stable-privacy
-		mkIP("2001:db8::1/64", flags{tmp: true}),                // GUA temporary (excluded)
-		mkIP("2001:db8::8/64", flags{mng: true}),                // GUA manage-temp
-		mkIP("2600::1/64", flags{tent: true}),                   // GUA tentative (excluded)
-		mkIP("fe80::5/64", none),                                // LLA
-		mkIP("fe80::211:22ff:fe33:4455/64", none),               // LLA EUI-64
-		mkIP("fe80::1/64", flags{forever: true, dep: true}),     // LLA stable but deprecated
-		mkIP("::1/128", none),                                   // loopback: none of the classes
-		mkIP("ff02::1/128", flags{forever: true}),               // multicast, stable flag
-		mkIP("10.0.0.1/24", flags{forever: true}),               // IPv4 (excluded)
-		mkIP("2001:db8::5/128", flags{stab: true}),              // same address as above, other mask and flags
-		mkIP("fc00::1/7", none),                                 // ULA, lowest
-		mkIP("fd00::211:22ff:ee33:4455/64", none),               // ff without fe: not EUI-64
-		mkIP("fd00::211:2200:fe33:4455/64", none),               // fe without ff: not EUI-64
+		mkIP("fd00::5/64", none),                            // ULA
+		mkIP("fd00::3/64", none),                            // ULA, lower
+		mkIP("fd00::9/64", flags{forever: true}),            // ULA stable
+		mkIP("fd00::211:22ff:fe33:4455/64", none),           // ULA EUI-64 (stable by pattern)
+		mkIP("fd00::1/64", flags{dep: true}),                // ULA deprecated (excluded)
+		mkIP("2001:db8::5/64", none),                        // GUA
+		mkIP("2001:db8::2/64", flags{stab: true}),           // GUA stable-privacy
+		mkIP("2001:db8::1/64", flags{tmp: true}),            // GUA temporary (excluded)
+		mkIP("2001:db8::8/64", flags{mng: true}),            // GUA manage-temp
+		mkIP("2600::1/64", flags{tent: true}),               // GUA tentative (excluded)
+		mkIP("fe80::5/64", none),                            // LLA
+		mkIP("fe80::211:22ff:fe33:4455/64", none),           // LLA EUI-64
+		mkIP("fe80::1/64", flags{forever: true, dep: true}), // LLA stable but deprecated
+		mkIP("::1/128", none),                               // loopback: none of the classes
+		mkIP("ff02::1/128", flags{forever: true}),           // multicast, stable flag
+		mkIP("10.0.0.1/24", flags{forever: true}),           // IPv4 (excluded)
+		mkIP("2001:db8::5/128", flags{stab: true}),          // same address as above, other mask and flags
+		mkIP("fc00::1/7", none),                             // ULA, lowest
+		mkIP("fd00::211:22ff:ee33:4455/64", none),           // ff without fe: not EUI-64
+		mkIP("fd00::211:2200:fe33:4455/64", none),           // fe without ff: not EUI-64
 	}
 }
 
@@ -606,41 +608,43 @@ func c15Run(t *testing.T, out *vfh.Out, k int, rs []netip.Prefix) {
 	}
 	pre := wildPre(k, rs)
 	ra := &ndp.RouterAdvertisement{Options: append([]ndp.Option(nil), pre...)}
-	impl := new(vfh.Toks)
-	if err := rt.Apply(ra); err != nil {
-		impl.S("err")
-	} else {
-		own := wildOwn(t, ra, pre)
-		impl.N(len(own))
-		norm := -1
-		if dep && len(own) > 0 {
-			for j := 0; j < wildClock.reads && norm < 0; j++ {
-				all := true
-				for _, o := range own {
-					ri, ok := o.(*ndp.RouteInformation)
-					if !ok || ri.RouteLifetime != remainingAt(cfgLt, j) {
-						all = false
+	out.Try(c.String(), func() string {
+		impl := new(vfh.Toks)
+		if err := rt.Apply(ra); err != nil {
+			impl.S("err")
+		} else {
+			own := wildOwn(t, ra, pre)
+			impl.N(len(own))
+			norm := -1
+			if dep && len(own) > 0 {
+				for j := 0; j < wildClock.reads && norm < 0; j++ {
+					all := true
+					for _, o := range own {
+						ri, ok := o.(*ndp.RouteInformation)
+						if !ok || ri.RouteLifetime != remainingAt(cfgLt, j) {
+							all = false
+						}
+					}
+					if all {
+						norm = j
 					}
 				}
-				if all {
-					norm = j
+			}
+			for _, o := range own {
+				ri, ok := o.(*ndp.RouteInformation)
+				if !ok {
+					t.Fatalf("unexpected option %T", o)
 				}
+				impl.Prefix(netip.PrefixFrom(ri.Prefix, int(ri.PrefixLength)))
+				l := ri.RouteLifetime
+				if norm >= 0 {
+					l = lt
+				}
+				impl.N(int(ri.Preference)).I(int64(l))
 			}
 		}
-		for _, o := range own {
-			ri, ok := o.(*ndp.RouteInformation)
-			if !ok {
-				t.Fatalf("unexpected option %T", o)
-			}
-			impl.Prefix(netip.PrefixFrom(ri.Prefix, int(ri.PrefixLength)))
-			l := ri.RouteLifetime
-			if norm >= 0 {
-				l = lt
-			}
-			impl.N(int(ri.Preference)).I(int64(l))
-		}
-	}
-	out.Line(c.String(), impl.String())
+		return impl.String()
+	})
 }
 
 func verifC15(t *testing.T, r *vfh.Rand, out *vfh.Out) {
